@@ -10,7 +10,7 @@ from __future__ import annotations
 import dataclasses
 from typing import Any
 
-from models.zoo import CLASSES, R, VLeaf, build, describe, node_at, positions_of, reset_all
+from models.zoo import CLASSES, R, VLeaf, build, describe, node_at, origin, positions_of, reset_all
 from vcheck.core import Family, Spec
 
 ID = "C10"
@@ -19,6 +19,7 @@ FUNCTIONS = [
     "pyoak.node:ASTNode.detach_self", "pyoak.node:ASTNode._deserialize", "pyoak.node:ASTNode.__post_init__", "pyoak.node:ASTNode._rich", "pyoak.node:_eq_fn", "pyoak.tree:Tree.__init__",
     "pyoak.match.xpath:ASTXpath.findall", "pyoak.match.xpath:ASTXpath.match", "pyoak.match.pattern:NodeMatcher._match", "pyoak.visitor:ASTTransformVisitor.generic_visit",
     "pyoak.serialize:DataClassSerializeMixin.as_dict", "pyoak.serialize:DataClassSerializeMixin.as_obj",
+    "pyoak.origin:merge_origins", "pyoak.origin:concat_origins", "pyoak.origin:CodeOrigin.__add__", "pyoak.origin:Origin.__add__",
 ]
 
 
@@ -42,6 +43,7 @@ def _ops():
     """name -> callable(root, node, ctx) performing one public operation."""
     import dataclasses as dc
 
+    import pyoak.origin as O
     from pyoak.match.pattern import MultiPatternMatcher, NodeMatcher
     from pyoak.match.xpath import ASTXpath
     from pyoak.tree import Tree
@@ -102,6 +104,11 @@ def _ops():
         "roundtrip-alive": lambda r, n: type(n).as_obj(n.as_dict()), "roundtrip-after-detach": lambda r, n: (n.detach(), type(n).from_json(n.to_json()))[1],
         "eq": lambda r, n: (r == n, n == n, n != r, n.is_equal(r)), "hash": lambda r, n: (hash(n), {n: 1}[n]), "rich": lambda r, n: (n.__rich__(), repr(n), str(n)),
         "to_tree": lambda r, n: r.to_tree(),
+        # origin algebra on the origins carried by existing nodes (how a parser computes a parent's origin)
+        "merge_origins": lambda r, n: O.merge_origins(n.origin, r.origin, _CTX["bystander_origin"]),
+        "concat_origins": safe(lambda r, n: O.concat_origins(n.origin, _CTX["bystander_origin"], r.origin)),
+        "origin-add": safe(lambda r, n: (n.origin + r.origin, n.origin + _CTX["bystander_origin"])),
+        "origin-queries": safe(lambda r, n: (n.origin.fqn, n.origin.get_raw(), repr(n.origin), hash(n.origin), n.origin == r.origin)),
         "as_obj-payload-carrying-the-id-of-a-live-node": safe(_payload_with_foreign_id),
         "from_json-of-detached-twin-under-digest-size-1": safe(_collision_roundtrip),
     }
@@ -155,13 +162,33 @@ def _collect(obj: Any, into: dict[int, Any]) -> None:
         _collect(obj.root, into)
 
 
+def _deep(v: Any, depth: int = 0) -> Any:
+    """Structural rendering of a field value down to (but not into) nodes: a field value that is
+    the same object but was changed inside (an origin's member list, a source's text) differs."""
+    from pyoak.node import ASTNode
+
+    if isinstance(v, ASTNode):
+        return ("node", id(v))
+    if isinstance(v, (str, int, float, bool, bytes, type(None))):
+        return v
+    if depth > 6:
+        return repr(v)
+    if isinstance(v, (tuple, list)):
+        return (type(v).__name__, tuple(_deep(x, depth + 1) for x in v))
+    if isinstance(v, (set, frozenset)):
+        return (type(v).__name__, tuple(sorted(repr(x) for x in v)))
+    if isinstance(v, dict):
+        return ("dict", tuple((repr(k), _deep(x, depth + 1)) for k, x in v.items()))
+    return repr(v)  # origins, sources, positions, enums, paths: their (generated) repr lists every field
+
+
 def _snapshot(nodes: dict[int, Any]) -> dict[int, tuple]:
     out = {}
     for k, n in nodes.items():
         vals = []
         for f in dataclasses.fields(n):
             v = object.__getattribute__(n, f.name)
-            vals.append((f.name, id(v), v if isinstance(v, (str, int, float, bool, type(None))) else None))
+            vals.append((f.name, id(v), _deep(v)))
         out[k] = (tuple(vals), n.id, n.content_id, hash(n))
     return out
 
@@ -179,6 +206,7 @@ def make_harness(K: int, first_op: str | None):
         existing: dict[int, Any] = {}
         _collect(root, existing)
         _CTX["bystander"] = VLeaf(v=424242)
+        _CTX["bystander_origin"] = origin("c")
         _collect(_CTX["bystander"], existing)
         history: list[str] = []
         scenario: dict[str, Any] = {"tree": describe(TREES[tno]), "history": history}
